@@ -20,7 +20,8 @@ UNVERIFIED = [
     "Lexer.advance / Lexer.lookahead: assumed contract (raise only GraphQLSyntaxError); the "
     "object invariant of the linked token chain they need is outside the engine's reach",
     "termination of the parser's loops and recursion (no progress measure over the token chain)",
-    "graphql_impl parse/validate stages; validate() and the executor never raising",
+    "graphql_impl parse/validate stages; validate() with all rules and the executor never raising: "
+    "only a bounded stand-in over a grammar-driven corpus (props/C01_pipeline.py), not proved",
     "execute_field/handle_field_error/located_error wrapping of resolver exceptions",
     "GraphQLSyntaxError.__init__ -> GraphQLError.__init__ is assumed total (it calls "
     "Source.get_location, which is under contract in C10)",
@@ -161,6 +162,29 @@ for s in ['{ f(a: "\\', '"\\u12', '"\\uD83D\\u12', '{f(a:"\\u', '"\\u{', '"\\u{1
             pass
 ''',
 }
+
+
+def bounded_checks(tier, seed):
+    """validate() with all specified rules, variable coercion and the execution glue are not under
+    contract as a whole: the statement itself (a result object, never an exception) is run over a
+    grammar-driven corpus, bounded (props/C01_pipeline.py)."""
+    import json
+    code = ("import json\nfrom props.C01_pipeline import search\n"
+            f"r = search(seed={int(seed)}, thorough={tier == 'thorough'!r})\n"
+            "print('BOUNDED ' + json.dumps(r, default=str))")
+    rc, outp = run_native(code, timeout=1200)
+    res, ok = None, False
+    for line in outp.splitlines():
+        if line.startswith("BOUNDED "):
+            res, ok = json.loads(line[8:]), True
+    if not ok:
+        raise RuntimeError(outp[-600:])
+    return [{"id": "C01/bounded/pipeline-corpus", "function": "graphql.graphql.graphql_sync / validate",
+             "tool": "public entry points over a grammar-driven corpus, native",
+             "bound": "corpus of props/parser_replay.py (2 kitchen-sink + 19 small documents; truncations "
+                      "at token boundaries, single-token deletions and substitutions) x 2 schemas x 3 "
+                      "variable mappings; " + ("all candidates" if tier == "thorough" else "every 4th candidate"),
+             "failed": res is not None, "input": res, "output": outp[-1500:]}]
 
 
 def native_checks(tier, seed):
